@@ -248,14 +248,27 @@ func runCase(run *evid.Run, idx int) {
 		}
 		items := genItems(rng, c.Kind, c.N)
 		name := backendName(listRepo)
-		// the repository must exist in every member even without tags
-		for _, reg := range members {
+		// the repository exists in every member even without tags — except that with unify it is
+		// sometimes known to member 0 only (member 1 then answers NAME_UNKNOWN, which the merge must
+		// not confuse with a failure, nor let it hide a real failure of member 0)
+		onlyM0 := len(members) == 2 && rng.IntN(3) == 0
+		for mi, reg := range members {
+			if mi == 1 && onlyM0 {
+				continue
+			}
 			pushBlob(reg, name, []byte("x"))
+		}
+		if onlyM0 {
+			run.Count("unify_repository_in_one_member", 1)
 		}
 		for _, it := range items {
 			tag := it
 			mf := []byte("manifest for " + it)
-			put(func(reg ociregistry.Interface) {
+			putf := put
+			if onlyM0 {
+				putf = func(f func(reg ociregistry.Interface)) { f(m0) }
+			}
+			putf(func(reg ociregistry.Interface) {
 				if _, err := reg.PushManifest(bg, name, tag, mf, "application/x-opaque"); err != nil {
 					panic(fmt.Sprintf("setup: PushManifest tag %q: %v", tag, err))
 				}
